@@ -236,4 +236,39 @@ theorem ps_pok_complete {G1 : Type} (g2 w : G) (ys : List G) (known : List Nat) 
 concrete instance of the length condition -/
 example : (hiddenGens [(1:Nat), 2, 3] [1]).length + 2 = 4 := by decide
 
+/-! ### why a key with a generator at infinity must be refused
+
+`bbs_message_binding` binds the message vector only through `msm ys`: a key one of whose generators is the
+point at infinity does not bind the message at that position at all — every value there verifies. The
+code refuses such keys (`PublicKey::is_invalid`, *any* generator at infinity); the seeded change
+`bbs-key-invalid-all-vs-any` weakened that test and is caught by the degenerate-key scenarios. -/
+
+theorem msm_zero_generator (ys : List G) (msgs : List F) (i : Nat) (a : F) (h : ys[i]? = some 0) :
+    msm ys (msgs.set i a) = msm ys msgs := by
+  induction ys generalizing msgs i with
+  | nil => simp at h
+  | cons y ys ih =>
+    cases msgs with
+    | nil => simp
+    | cons m ms =>
+      cases i with
+      | zero =>
+        simp at h
+        subst h
+        simp [msm]
+      | succ i =>
+        simp at h
+        simp [msm, ih ms i h]
+
+theorem bbs_degenerate_key_unbinds (x e : F) (A g1 : G) (ys : List G) (msgs : List F) (i : Nat) (a : F)
+    (h0 : ys[i]? = some 0) (h : BbsValid x e A g1 ys msgs) : BbsValid x e A g1 ys (msgs.set i a) := by
+  refine ⟨h.1, ?_⟩
+  rw [h.2]
+  unfold bbsB
+  rw [msm_zero_generator ys msgs i a h0]
+
+/-- non-vacuity: a concrete key with its second generator at infinity, two vectors differing there -/
+example : msm ([3, 0, 5] : List ℚ) ([1, 7, 2] : List ℚ) = msm ([3, 0, 5] : List ℚ) ([1, 9, 2] : List ℚ) := by
+  simp [msm]
+
 end AC.C17
